@@ -79,7 +79,8 @@ def build(spec):
         return 0
       return variables[v['i'] % len(variables)]
     if k == 'arr':
-      return arr(v['seed'], v['shape'])
+      a = arr(v['seed'], v['shape'])
+      return np.asarray(a) if v.get('np') else a
     if k == 'static':
       return v['v']
     if k == 'none':
@@ -261,9 +262,11 @@ def val_strategy(n_nodes, n_vars, depth=2, arrays=True, statics=True):
     base.append(st.integers(0, n_vars - 1).map(lambda i: {'k': 'var', 'i': i}))
     base.append(st.integers(0, n_vars - 1).map(lambda i: {'k': 'var', 'i': i}))
   if arrays:
+    # raw array attributes: jax arrays or host-side NumPy arrays
     base.append(st.tuples(st.integers(0, 99), st.sampled_from(
-        [[], [2], [1, 2]])).map(lambda t: {'k': 'arr', 'seed': t[0],
-                                           'shape': t[1]}))
+        [[], [2], [1, 2]]), st.booleans()).map(
+            lambda t: {'k': 'arr', 'seed': t[0], 'shape': t[1],
+                       'np': t[2]}))
   if statics:
     base.append(st.sampled_from([0, 1, 'x', 'y', True]).map(
         lambda v: {'k': 'static', 'v': v}))
